@@ -22,7 +22,8 @@ DIRECTION_API_PREFIX = ('extract_', 'init_')
 DIRECTION_API = {'FtoJT': 'reshapes directions into a Jacobian axis by definition', 'JTtoF': 'inverse of FtoJT',
                  'coeff': 'UTP (non-vectorized) has exactly one direction', 'as_utpm': 'container conversion'}
 SHAPE_ONLY = {'shape', 'size', 'ndim', 'dtype', 'strides'}
-REDUCTIONS = {'sum', 'prod', 'max', 'min', 'any', 'all', 'mean', 'allclose', 'argmax', 'argmin', 'norm', 'amax', 'amin', 'median', 'std', 'var'}
+REDUCTIONS = {'sum', 'prod', 'max', 'min', 'any', 'all', 'mean', 'allclose', 'argmax', 'argmin', 'norm', 'amax', 'amin', 'median', 'std', 'var',
+              'count_nonzero', 'nanmin', 'nanmax', 'nansum', 'ptp', 'alltrue', 'sometrue', 'array_equal'}
 # reductions over all directions that are the specified behaviour (function -> reason)
 REDUCTION_OK = {
     '__lt__': 'comparison = truth value over all elements of the zeroth coefficient (C10)', '__le__': 'C10', '__gt__': 'C10',
@@ -521,7 +522,7 @@ def rule_p4(ctx):
             if not isinstance(c, ast.Call):
                 continue
             d = dotted_name(c.func) or ''
-            last = d.split('.')[-1]
+            last = c.func.attr if isinstance(c.func, ast.Attribute) else d.split('.')[-1]
             if last not in REDUCTIONS:
                 continue
             if not (d.startswith('numpy.') or isinstance(c.func, ast.Attribute)):
@@ -603,6 +604,31 @@ def _mentions_dp_keeping_p(arg, locals_=None):
         return _mentions_dp_keeping_p(arg.left, locals_) or _mentions_dp_keeping_p(arg.right, locals_)
     if isinstance(arg, ast.Call) and (dotted_name(arg.func) or '').split('.')[-1] in ('abs', 'absolute', 'fabs', 'real', 'imag', 'isnan', 'isfinite', 'less', 'greater') and arg.args:
         return _mentions_dp_keeping_p(arg.args[0], locals_)
+    if isinstance(arg, ast.Call):
+        d = dotted_name(arg.func) or ''
+        last = arg.func.attr if isinstance(arg.func, ast.Attribute) else d.split('.')[-1]
+        inner = arg.args[0] if (d.startswith('numpy.') and arg.args) else (arg.func.value if isinstance(arg.func, ast.Attribute) and not d.startswith('numpy.') else None)
+        if inner is not None and last in REDUCTIONS:
+            # a reduction over another axis keeps the direction axis: numpy.count_nonzero(X > eps, axis=-1)
+            axis = next((k.value for k in arg.keywords if k.arg == 'axis'), None)
+            if axis is None and d.startswith('numpy.') and len(arg.args) > 1:
+                axis = arg.args[1]
+            r_ = _mentions_dp_keeping_p(inner, locals_)
+            if r_ is not None and axis is not None:
+                ax = axis.value if isinstance(axis, ast.Constant) and isinstance(axis.value, int) else \
+                    (-axis.operand.value if isinstance(axis, ast.UnaryOp) and isinstance(axis.op, ast.USub) and isinstance(axis.operand, ast.Constant) else None)
+                if ax is None or ax == r_[1]:
+                    return None
+                return r_[0], (r_[1] - 1 if 0 <= ax < r_[1] else r_[1])
+            return None
+        if inner is not None and last == 'diagonal':
+            # numpy.diagonal(X, axis1=-2, axis2=-1): two trailing axes are replaced by one
+            r_ = _mentions_dp_keeping_p(inner, locals_)
+            axes = [k.value for k in arg.keywords if k.arg in ('axis1', 'axis2')]
+            neg = [a_ for a_ in axes if isinstance(a_, ast.UnaryOp) and isinstance(a_.op, ast.USub)]
+            if r_ is not None and len(axes) == 2 and len(neg) == 2:
+                return r_
+            return None
     return _mentions_dp_keeping_p0(arg)
 
 
